@@ -276,6 +276,8 @@ class AtomsCollection:
             struct_slice = self.structures[indices]
         except TypeError:
             indices = np.array(indices)
+            if indices.size == 0:
+                indices = indices.astype(int)
             if indices.dtype == bool:
                 indices = np.where(indices)[0]  # Support for bool arrays
             struct_slice = [self.structures[i] for i in indices]
